@@ -7,6 +7,7 @@ pub struct Drain<'a, AnyVecPtr: IAnyVecRawPtr>
 {
     iter: Iter<'a, AnyVecPtr>,
     start: usize,
+    end: usize,
     original_len: usize
 }
 
@@ -25,6 +26,7 @@ impl<'a, AnyVecPtr: IAnyVecRawPtr> Drain<'a, AnyVecPtr>
         Self{
             iter: Iter::new(any_vec_ptr, start, end),
             start,
+            end,
             original_len
         }
     }
@@ -63,17 +65,17 @@ impl<'a, AnyVecPtr: IAnyVecRawPtr> Drop for Drain<'a, AnyVecPtr>
 
         // 2. mem move
         unsafe{
-            let elements_left = self.original_len - self.iter.end;
+            let elements_left = self.original_len - self.end;
             move_elements_at(
                 self.iter.any_vec_ptr,
-                self.iter.end,
+                self.end,
                 self.start,
                 elements_left
             );
         }
 
         // 3. len
-        let distance = self.iter.end - self.start;
+        let distance = self.end - self.start;
         let any_vec_raw = unsafe{ self.iter.any_vec_ptr.any_vec_raw_mut() };
         any_vec_raw.len = self.original_len - distance;
     }
